@@ -1039,12 +1039,15 @@ class Variable(CanBehaveLikeAVariable[T]):
             if self._predicate_type_ and not self._is_used_as_condition_:
                 # (a predicate call that is used as a value here: what it was bound to, falsy or not)
                 yield sources
+            elif self._predicate_type_:
+                # a predicate call in condition position (of the query, of a sub-query, of a logical operator, of a
+                # for_all) is as true as the value it was bound to.
+                is_false = bool(sources[self._id_].value) == self._invert_
+                if not is_false or yield_when_false:
+                    self._is_false_ = is_false
+                    yield sources
             elif self is self._conditions_root_ or isinstance(self._parent_, LogicalOperator):
-                if self._predicate_type_:
-                    # a predicate call is as true as the value it was bound to.
-                    is_false = bool(sources[self._id_].value) == self._invert_
-                else:
-                    is_false = self._id_expression_map_[self._id_]._is_false_
+                is_false = self._id_expression_map_[self._id_]._is_false_
                 if not is_false or yield_when_false:
                     self._is_false_ = is_false
                     yield sources
